@@ -119,3 +119,52 @@ func H_C15_multi() {
 	vxrt.Assert(vxrt.Eq(compactRef(string(out)), want), "C15:paths-take-effect-left-to-right")
 	vxrt.Assert(vxrt.Eq(string(caller), doc), "C15:caller-bytes-untouched")
 }
+
+// H_C15_reuse: a matcher value is reusable (applying it to one document does not change
+// what it does to the next), placeholders that need JSON escaping are stored as their
+// escaped form at every path, and a member named `$` is an ordinary member.
+func H_C15_reuse() {
+	kind := vxrt.Choice("matcher", 2) // Any, Type
+	build := func(ph string, paths ...string) match.JSONMatcher {
+		if kind == 0 {
+			return match.Any(paths...).Placeholder(ph).ErrOnMissingPath(false)
+		}
+		return match.Type[float64](paths...).ErrOnMissingPath(false)
+	}
+	phOf := func(ph string) string {
+		if kind == 0 {
+			return ph
+		}
+		return "<Type:float64>"
+	}
+	switch vxrt.Choice("scenario", 3) {
+	case 0: // the same matcher value applied to an earlier document that lacks some of its paths
+		m := build("P", "a", "b", "c")
+		first := []string{`{"b":1,"c":1}`, `{"a":1,"c":1}`, `{"c":1}`, `{"x":1}`, `{"a":1,"b":2,"c":3}`}[vxrt.Choice("earlier-document", 5)]
+		m.JSON([]byte(first))
+		out, errs := m.JSON([]byte(`{"a":1,"b":2,"c":3}`))
+		vxrt.Assert(len(errs) == 0, "C15:existing-path-no-error")
+		for _, p := range []string{"a", "b", "c"} {
+			vxrt.Assert(gjson.GetBytes(out, p).String() == phOf("P"), "C15:matcher-value-is-reusable")
+		}
+	case 1: // a placeholder that needs escaping, shorter than the values it replaces
+		ph := []string{`<"q">`, `a\b`, "t\tb", `plain`}[vxrt.Choice("placeholder", 4)]
+		doc := `{"a":"0123456789abcdef","b":"0123456789abcdef","c":"0123456789abcdef"}`
+		if kind == 1 {
+			doc = `{"a":1234567890123456789012,"b":1234567890123456789012,"c":1234567890123456789012}`
+		}
+		caller := []byte(doc)
+		out, errs := build(ph, "a", "b", "c").JSON(caller)
+		vxrt.Assert(len(errs) == 0, "C15:existing-path-no-error")
+		vxrt.Assert(gjson.ValidBytes(out), "C15:result-is-valid-json")
+		for _, p := range []string{"a", "b", "c"} {
+			vxrt.Assert(gjson.GetBytes(out, p).String() == phOf(ph), "C15:every-path-replaced-by-the-placeholder")
+		}
+		vxrt.Assert(string(caller) == doc, "C15:caller-bytes-untouched")
+	default: // a member named "$"
+		doc := `{"$":{"r":1},"r":2}`
+		out, errs := build("P", "$.r").JSON([]byte(doc))
+		vxrt.Assert(len(errs) == 0, "C15:existing-path-no-error")
+		vxrt.Assert(gjson.GetBytes(out, "$.r").String() == phOf("P") && gjson.GetBytes(out, "r").Raw == "2", "C15:only-the-target-replaced")
+	}
+}
